@@ -142,6 +142,7 @@ C04Family == { Scn("C04", FE(t, <<>>, tf), <<L("", "T4", "")>>, WithFailing(cs, 
 \* the matching table itself: every (requirement, provision) pair over a small label universe, the
 \* provision either supplied directly or produced by a parameterless provider
 MatchU == {L(n, t, s) : n \in {"", "a", "b"}, t \in {"T1", "I1"}, s \in {"", "s", "t"}}
+          \cup {L(n, "I12", s) : n \in {"", "a"}, s \in {"", "s"}}      \* an interface that implements I1 (and T2 implements it)
 MatchFamily == { Scn("match", F(<<rq>>, <<>>), <<pv>>, <<>>) : rq \in MatchU, pv \in {x \in MatchU : x.type = "T1"} }
                \cup { Scn("match", F(<<rq>>, <<>>), <<>>, <<F(<<>>, <<pv>>)>>) : rq \in MatchU, pv \in MatchU }
                \cup { Scn("match", F(<<rq>>, <<>>), <<L("", "T2", "")>>, <<F(<<L("", "T2", "")>>, <<pv>>)>>) : rq \in MatchU, pv \in MatchU }
